@@ -923,10 +923,30 @@ package solver
 //@   loop 1
 //@     invariant own: grown(*lits)
 
+// minimizeLearned (conflict-clause minimisation, C01 / C10): a literal of the learned clause may
+// only be dropped when it has a reason clause all of whose literals are marked in `met` (they are
+// then already accounted for by the clause being learned: self-subsuming resolution); every other
+// literal is kept, the asserting literal stays in front. Stated under the hypothesis that the
+// buffer holding the learned literals is not the literal array of a reason clause (sepR), which
+// the callers do not establish here.
+//@ define allMet(c *Clause, met []bool) bool = c != nil && forall(k, 0, len(c.lits), met[c.lits[k] / 2])
+//@ define sepR(s *Solver, learned []Lit) bool = forall(v, 0, len(s.reason), s.reason[v] != nil ==> arr(s.reason[v].lits) != arr(learned))
 //@ func (*Solver).minimizeLearned
-//@   inline-calls (Lit).Var, (Lit).Negation, (Lit).IsPositive, (*Solver).litStatus
+//@   inline-calls (Lit).Var, (Lit).Negation, (Lit).IsPositive, (*Solver).litStatus, (*Clause).Len, (*Clause).Get
 //@   requires nn: s != nil
 //@   modifies learned[*]
+//@   ensures  size:  1 <= result && (len(learned) >= 1 ==> result <= len(learned))
+//@   ensures  first: len(learned) >= 1 ==> learned[0] == old(learned[0])
+//@   ensures  just:  sepR(s, learned) ==> forall(i2, 1, len(learned), exists(p, 1, result, learned[p] == old(learned[i2])) || allMet(s.reason[old(learned[i2]) / 2], met))
+//@   loop 1
+//@     invariant idx:   1 <= sz && sz <= i && (len(learned) >= 1 ==> i <= len(learned))
+//@     invariant tail:  forall(k, i, len(learned), learned[k] == old(learned[k]))
+//@     invariant first: len(learned) >= 1 ==> learned[0] == old(learned[0])
+//@     invariant rng:   forall(i2, 1, i, 0 <= old(learned[i2]) / 2 && old(learned[i2]) / 2 < len(s.reason))
+//@     invariant just:  sepR(s, learned) ==> forall(i2, 1, i, exists(p, 1, sz, learned[p] == old(learned[i2])) || allMet(s.reason[old(learned[i2]) / 2], met))
+//@   loop 2
+//@     invariant idx:   0 <= k && reason != nil && reason == s.reason[learned[i] / 2]
+//@     invariant scan:  forall(k2, 0, k, k2 < len(reason.lits) ==> met[reason.lits[k2] / 2])
 
 //@ func (*Solver).learnClause
 //@   inline-calls (Lit).Var, (Lit).Negation, (Lit).IsPositive, (*Solver).litStatus
